@@ -36,7 +36,25 @@ ENGINES.append({"name": "CssVal", "path": "coq/theories/Css", "serves_properties
      "kind_free_text": "F2 Gallina model of the four-sides shorthand rewrite + CSS 2.1 box semantics; harness/cmd/cssoracle (exhaustive box correspondence, independent CSS tokenizer/value interpreter as search oracle)"})
 ENGINES.append({"name": "Html", "path": "coq/theories/Html + coq/gen/Tables_gen.v", "serves_properties": ["C03", "C16", "C09"],
      "kind_free_text": "F2 Gallina model of html.Minify's token loop on attribute-free documents (white-space state machine, pre/raw text, tag omission, document tags, Keep* options; traits regenerated from html/table.go) and F1 model of parse/html.EscapeAttrVal; rendered-words specification and the HTML tokenizer's attribute-value states; harness/cmd/htmloracle (token dump + x/net/html tree oracle, stub and real registries)"})
+ENGINES.append({"name": "Options", "path": "coq/theories/Cli/CliOpts.v + coq/theories/Js/PrintGroup.v + coq/theories/Html/HtmlOpts.v + coq/gen/JsGates_gen.v + coq/gen/CliOpts_gen.v", "serves_properties": ["C16", "C01"],
+     "kind_free_text": "site facts regenerated from js/*.go (version gates, groupExpr operand sites) and cmd/minify/main.go (configuration events of run()), checked in Coq against pinned ECMA-262 editions / the documented flag table and executed symbolically; option theorems over the Html/Xml/Json/JsRename models; harness/cmd/optcheck (real CLI binary vs library for every flag x type)"})
 CHECKS = {
+    "C16": {
+        "engine": "Options", "design_ref": "DESIGN.md section 4 / C16",
+        "technique": "Coq proofs per option over the engines' models + proof obligations over site facts regenerated from source (every newer-syntax site dominated by a sufficient minVersion gate; every CLI flag reaches every type of its family) + search by all oracles over option products and by optcheck on the real binary",
+        "text": ("Theorems (Props/C16.v): KeepEndTags / KeepDocumentTags / KeepQuotes / KeepWhitespace are honoured by the HTML token loop and the attribute "
+                 "quoting for all inputs; text handling ignores the tag options; XML KeepWhitespace keeps leading space; JSON KeepNumbers gives the compact "
+                 "text with every number lexeme unchanged; scopes the renamer does not act on (KeepVarNames) keep every name; every site of js/*.go that "
+                 "introduces ES2015+ syntax (6 kinds, 17 sites, regenerated on every run) is dominated by a minVersion test of at least the introducing "
+                 "edition; executing run()'s 42 configuration events symbolically, each of the 17 flags reaches the option struct of every registered "
+                 "media type of its family, and the flag table equals the documented one. Tie: T-gen (facts regenerated from source on every run) + the "
+                 "model correspondences of C01-C07 + optcheck (CLI binary vs library, 119 flag x type x sample runs, exhaustive). PARTIAL: that the "
+                 "semantic guarantees hold under every option combination is decided by search: all six oracles run over option products (js: "
+                 "KeepVarNames x Version 5..2022 with a newer-syntax scanner; html: all Keep* combinations and template delimiters; css KeepCSS2/precision; "
+                 "xml, svg, json options); open findings K59, K81, K105, K108, K112."),
+        "note": ("Partial. Trusted: Coq kernel, the site extraction of the translator (patterns documented in translator/jsgates.go, cli.go), pinned edition "
+                 "years and flag table, the oracles of C01-C07."),
+    },
     "C03": {
         "engine": "Html", "design_ref": "DESIGN.md section 4 / C03",
         "technique": "Coq proof (white-space state machine keeps the rendered words, all token lists and options; attribute quoting reads back the same value, all values) + token correspondence against the real lexer and minifier; x/net/html tree comparison as search for tag omission, attribute rewriting, references and embedded content",
